@@ -1,23 +1,55 @@
 #!/usr/bin/env python3
-"""Fail-closed translator for the schedule validators of quara (property C20): Python `ast` -> Gallina over the
-combinators of coq/theories/Model/C20_PySem.v.
+"""Fail-closed translator: Python `ast` -> Gallina over the combinators of coq/theories/Model/C20_PySem.v (property C20;
+recommended base for other owners: copy it to gen/cxx_py2coq.py and extend YOUR copy).
 
-Translated on every run from the CURRENT source:
-  quara/qcircuit/experiment.py                       Experiment._validate_schedule_item(self, item, objdict=None)  (class ItemValidator)
-  quara/qcircuit/experiment.py                       Experiment._validate_schedule_order(self, schedule)
-  quara/protocol/qtomography/standard/standard_*.py  Standard{Qst,Povmt,Qpt,Qmpt}._validate_schedules(self, schedules)
+WHAT IT IS FOR.  Argument validation, error branches, string dispatch, loop skeletons with early exits, try/except ->
+error-class mappings, small state changes: code whose observable behaviour is "which exception class, or which new state".
+The output is a Gallina definition built from the PySem combinators; coq/gen/C20_Equiv.v re-proves on every run that the
+regenerated definitions agree with the hand-written model the property theorems are about.
 
-Accepted shape of a validator body (anything else raises Unsupported -> the tie is reported broken, never skipped):
-  * docstring; `NAME = <int constant>` (named index constants);
-  * `NAME = collections.Counter([v[K] for v in schedule])` with K == 0 (a counter of the kind names);
-  * `if <cond>: <message statements> raise <ExceptionName>(<message expression>)`   (no else);
-    message statements: `NAME = <msg>` / `NAME += <msg>`; <msg>: str constants, f-strings whose fields are plain names,
-    `+` of those, a plain name — expressions that cannot raise and have no effect;
-  * for the class guards the body is exactly `for i, schedule in enumerate(schedules): <such statements>`;
-  * <cond>: `or` / `and` / `not` of comparisons; comparison operands: `schedule[A][B]` (A an int constant, possibly negative,
-    B 0 or 1, possibly through a named constant), `len(schedule)`, `counter["name"]`, str / int constants;
-    operators == != < <= > >= on ints, == != on strs, `in` / `not in` a list of str constants.
-The function must not contain return / try / while / with / nested def / anything not listed.
+FAIL-CLOSED.  Every construct that is not listed below raises Unsupported (exit code 3, message `UNSUPPORTED: ...` with the
+node type and line); the harness reports that as a broken tie (never skipped).  Never add a catch-all branch.
+
+THE ACCEPTED SUBSET (three layers; PySem.v part 1 / 2 / 3 give the meaning)
+
+ 1. validators over a TYPED schedule  (class Validator; _validate_schedule_order, the four class guards)
+    statements : docstring | NAME = <int constant> | NAME = collections.Counter([v[0] for v in schedule])
+                 | if <cond>: <message stmts> raise Name(<message>)          (no else; results in `f_if cond (FRaise n "Name") rest`)
+    terms      : schedule[A][B] (A int constant, negative allowed; B 0|1, also via a named constant) | len(schedule)
+                 | counter["name"] | str / int constants
+    conditions : or / and / not | == != < <= > >= on ints | == != on strs | [not] in [str constants]
+    an index that runs off the schedule is IndexError (option None -> CIndexError -> FIndexError)
+
+ 2. validators over ARBITRARY python values  (class ItemValidator / IndexValidator; _validate_schedule_item, _validate_schedule_index)
+    additionally: a, b = <val>, <val> | NAME = objdict["kind"] if objdict else self._kinds
+                 | if not objdict: objdict = dict(state=self._states, povm=..., gate=..., mprocess=...)
+                 | type(<val>) != tuple|str|int | len(<val>|<list>) | <val> == "str" | <val> [not] in [strs] | not <list>
+                 | chained int comparisons `a <= <val> < len(objdict[<val>])` | len(self.schedules)
+    values are abstracted by exact type (pyval); an expression whose meaning is not defined for the value at hand is
+    "stuck" (None -> CStuck -> FStuck) and the equivalence proof shows stuck is unreachable.
+
+ 3. procedures  (class Proc and the translate_* functions; _validate_schedules, __init__, the five setters, calc_prob_dist,
+    _validate_schedules_str, the schedule prologue of the four tomography constructors)
+    effect-free : for i, x in enumerate(<list|schedule>) / for x in ...  |  try: ... except (A, B) as e: <messages> raise C(msg)
+                  (exactly one except clause, no finally)  |  self._validate_schedule_item(item[, objdict=objdict])
+                  | self._validate_schedule_order(schedule) | self._validate_schedules(<schedules>[, objdict=objdict])
+                  | NAME[, NAME] = None[, None]  (pre-binding; it makes the names definitely bound)
+    with state  : self._validate_type(<list>, <its own class>) (checked, then dropped) | objdict = dict(state=..., ...)
+                  | X = [] if X is None else X | self._states|_povms|_gates|_mprocesses|_schedules = NAME
+                  | try/except/else around a validator call | seed bookkeeping in __init__ (self._seed_data, reset_seed_data)
+    skeletons   : calc_prob_dist (7 fixed statements; extracted: the key_map, the exception class, appendleft) and the tomography
+                  prologue (4 fixed statements; extracted: the str test, the expansion as map / flat_map over zseq, the
+                  Experiment(...) keyword arguments, the guard call); the rest of those constructors must not rebind them.
+    DEFINITE ASSIGNMENT: a name used in a message / handler must be bound on every path (names bound only inside the try
+    body do not count) — otherwise Unsupported ("name j is not definitely bound here": this is how the UnboundLocalError
+    defect C20-2 shows up at translation time).
+    MESSAGES (function harmless): str/int constants, bound names, f-strings of those, + and -, "...".format(...), str(x),
+    len(self.<list>), e.args[0] — expressions without effect that cannot raise; they are not translated.
+
+TRUSTED: this file; PySem.v's reading of the vocabulary (negative indices, short-circuit, chained comparisons, Counter,
+exception matching BY CLASS NAME — sound here because the classes involved are unrelated by inheritance —, objdict as
+None-or-dict-with-the-four-kind-keys, quara objects are truthy, lists handed to the setters contain objects of the right class
+or None).
 """
 import ast, sys, os
 
@@ -430,6 +462,651 @@ def translate_item(repo):
     return "Definition gen_validate_schedule_item (self_ : cfg) (objdict : option cfg) (item : pyval) : fres :=\n   %s." % body
 
 
+# ================================================================================================ procedures (part 3 of C20_PySem.v)
+KIND_OF_ATTR = {"_states": "KState", "_povms": "KPovm", "_gates": "KGate", "_mprocesses": "KMprocess"}
+FIELD_OF_ATTR = {"_states": "c_states", "_povms": "c_povms", "_gates": "c_gates", "_mprocesses": "c_mprocesses"}
+ATTR_OF_KEY = {"state": "_states", "povm": "_povms", "gate": "_gates", "mprocess": "_mprocesses"}
+CLASS_OF_ATTR = {"_states": "State", "_povms": "Povm", "_gates": "Gate", "_mprocesses": "MProcess"}
+KEYS = ["state", "povm", "gate", "mprocess"]
+KIND_OF_KEY = {"state": "KState", "povm": "KPovm", "gate": "KGate", "mprocess": "KMprocess"}
+
+
+def is_doc(s):
+    return isinstance(s, ast.Expr) and isinstance(s.value, ast.Constant) and type(s.value.value) is str
+
+
+def harmless(e, bound, handler=None):
+    """message expressions: no effect, cannot raise provided every name in `bound` is bound (definite assignment is the
+    caller's business).  handler: name bound by `except ... as NAME` (NAME.args[0] is allowed)."""
+    if isinstance(e, ast.Constant) and type(e.value) in (str, int):
+        return
+    if isinstance(e, ast.Name):
+        if e.id in bound:
+            return
+        fail(e, "name %s is not definitely bound here" % e.id)
+    if isinstance(e, ast.JoinedStr):
+        for v in e.values:
+            if isinstance(v, ast.Constant) and type(v.value) is str:
+                continue
+            if isinstance(v, ast.FormattedValue) and v.format_spec is None:
+                harmless(v.value, bound, handler)
+                continue
+            fail(e, "f-string field")
+        return
+    if isinstance(e, ast.BinOp) and isinstance(e.op, (ast.Add, ast.Sub)):
+        harmless(e.left, bound, handler); harmless(e.right, bound, handler)
+        return
+    if isinstance(e, ast.Call) and not e.keywords:
+        f = e.func
+        if isinstance(f, ast.Attribute) and f.attr == "format" and isinstance(f.value, ast.Constant) and type(f.value.value) is str:
+            for a in e.args:
+                harmless(a, bound, handler)
+            return
+        if isinstance(f, ast.Name) and f.id == "str" and len(e.args) == 1:
+            harmless(e.args[0], bound, handler)
+            return
+        if isinstance(f, ast.Name) and f.id == "len" and len(e.args) == 1 and isinstance(e.args[0], ast.Attribute) \
+                and isinstance(e.args[0].value, ast.Name) and e.args[0].value.id == "self" \
+                and e.args[0].attr in ("schedules", "_schedules", "_states", "_povms", "_gates", "_mprocesses"):
+            return
+    if handler and isinstance(e, ast.Subscript) and isinstance(e.value, ast.Attribute) and e.value.attr == "args" \
+            and isinstance(e.value.value, ast.Name) and e.value.value.id == handler and isinstance(e.slice, ast.Constant) and e.slice.value == 0:
+        return
+    fail(e, "message expression %s" % ast.unparse(e)[:60])
+
+
+def raise_name(s, bound, handler=None):
+    """`raise Name(<harmless>)` -> Name"""
+    if not isinstance(s, ast.Raise) or s.cause is not None or not isinstance(s.exc, ast.Call) or not isinstance(s.exc.func, ast.Name) \
+            or s.exc.keywords or len(s.exc.args) != 1:
+        fail(s, "expected `raise Name(<message>)`")
+    harmless(s.exc.args[0], bound, handler)
+    return s.exc.func.id
+
+
+def message_then_raise(body, bound, handler=None):
+    """<message statements> raise Name(msg) -> Name"""
+    bound = set(bound)
+    if not body:
+        raise Unsupported("empty block where a raise is expected")
+    for b in body[:-1]:
+        if isinstance(b, ast.Assign) and len(b.targets) == 1 and isinstance(b.targets[0], ast.Name):
+            harmless(b.value, bound, handler)
+            bound.add(b.targets[0].id)
+        elif isinstance(b, ast.AugAssign) and isinstance(b.target, ast.Name) and isinstance(b.op, ast.Add) and b.target.id in bound:
+            harmless(b.value, bound, handler)
+        else:
+            fail(b, "statement before raise")
+    return raise_name(body[-1], bound, handler)
+
+
+class Proc:
+    """statements of Experiment._validate_schedules / __init__ / setters.  self_cfg: Coq text of the cfg of `self`;
+    self_exp: Coq name of the exp when the procedure may read self._schedules / assign attributes (else None)."""
+
+    def __init__(self, self_cfg, self_exp=None):
+        self.self_cfg, self.self_exp = self_cfg, self_exp
+        self.sorts = {}            # python name -> sort: scheds | sched | pyval | env | olist | optlist
+        self.assigned_attrs = None  # constructor: set of self attributes assigned so far (None: every attribute exists)
+        self.type_roles = {}       # name -> class name accepted in self._validate_type(name, Class)
+
+    # ---- reading self
+    def self_list(self, attr, node):
+        if attr not in FIELD_OF_ATTR:
+            fail(node, "self.%s" % attr)
+        if self.assigned_attrs is not None and attr not in self.assigned_attrs:
+            fail(node, "self.%s is read before it is assigned" % attr)
+        return "(%s %s)" % (FIELD_OF_ATTR[attr], self.self_cfg)
+
+    def need_all_lists(self, node):
+        if self.assigned_attrs is not None and not all(a in self.assigned_attrs for a in FIELD_OF_ATTR):
+            fail(node, "a validator is called before all four object lists are assigned")
+
+    def olist(self, e):
+        """expression denoting an object list -> coq : list bool"""
+        if isinstance(e, ast.Name) and self.sorts.get(e.id) == "olist":
+            return e.id
+        if isinstance(e, ast.Attribute) and isinstance(e.value, ast.Name) and e.value.id == "self":
+            return self.self_list(e.attr, e)
+        fail(e, "object list expression %s" % ast.unparse(e))
+
+    def mkcfg_of_dict(self, c):
+        if not (isinstance(c, ast.Call) and isinstance(c.func, ast.Name) and c.func.id == "dict" and not c.args
+                and sorted(k.arg for k in c.keywords) == sorted(KEYS)):
+            fail(c, "expected dict(state=..., povm=..., gate=..., mprocess=...)")
+        fields = {k.arg: self.olist(k.value) for k in c.keywords}
+        return "(mkcfg %s %s %s %s)" % tuple(fields[k] for k in KEYS)
+
+    # ---- calls of the validators -> coq : xres
+    def xcall(self, c):
+        if not (isinstance(c, ast.Call) and isinstance(c.func, ast.Attribute) and isinstance(c.func.value, ast.Name) and c.func.value.id == "self"):
+            fail(c, "call %s" % ast.unparse(c)[:60])
+        name = c.func.attr
+        kw = {k.arg: k.value for k in c.keywords}
+        if None in kw:
+            fail(c, "**kwargs")
+        def env_arg():
+            if "objdict" not in kw:
+                return "None"
+            v = kw["objdict"]
+            if isinstance(v, ast.Name) and self.sorts.get(v.id) == "env":
+                return v.id
+            fail(c, "objdict argument")
+        if name == "_validate_schedule_item":
+            if len(c.args) != 1 or set(kw) - {"objdict"} or not (isinstance(c.args[0], ast.Name) and self.sorts.get(c.args[0].id) == "pyval"):
+                fail(c, "arguments of _validate_schedule_item")
+            self.need_all_lists(c)
+            return "(x_of_fres (gen_validate_schedule_item %s %s %s))" % (self.self_cfg, env_arg(), c.args[0].id)
+        if name == "_validate_schedule_order":
+            if len(c.args) != 1 or kw or not (isinstance(c.args[0], ast.Name) and self.sorts.get(c.args[0].id) == "sched"):
+                fail(c, "arguments of _validate_schedule_order")
+            return "(x_call_order gen_validate_schedule_order %s)" % c.args[0].id
+        if name == "_validate_schedules":
+            if len(c.args) != 1 or set(kw) - {"objdict"}:
+                fail(c, "arguments of _validate_schedules")
+            a = c.args[0]
+            if isinstance(a, ast.Name) and self.sorts.get(a.id) == "scheds":
+                ss = a.id
+            elif isinstance(a, ast.Attribute) and isinstance(a.value, ast.Name) and a.value.id == "self" and a.attr == "_schedules" and self.self_exp:
+                if self.assigned_attrs is not None and "_schedules" not in self.assigned_attrs:
+                    fail(c, "self._schedules read before assignment")
+                ss = "(e_scheds %s)" % self.self_exp
+            else:
+                fail(c, "schedules argument")
+            self.need_all_lists(c)
+            return "(gen_validate_schedules %s %s %s)" % (self.self_cfg, env_arg(), ss)
+        fail(c, "call of self.%s" % name)
+
+    # ---- effect-free statement blocks -> coq : xres
+    def xstmts(self, stmts, bound):
+        bound = set(bound)
+        parts = []
+        for s in stmts:
+            if is_doc(s):
+                continue
+            # NAME[, NAME] = None[, None]   (pre-binding of loop variables)
+            if isinstance(s, ast.Assign) and len(s.targets) == 1:
+                tg, v = s.targets[0], s.value
+                names = [tg] if isinstance(tg, ast.Name) else (list(tg.elts) if isinstance(tg, ast.Tuple) else None)
+                vals = [v] if isinstance(tg, ast.Name) else (list(v.elts) if isinstance(v, ast.Tuple) else None)
+                if names and vals and len(names) == len(vals) and all(isinstance(n, ast.Name) for n in names) \
+                        and all(isinstance(x, ast.Constant) and x.value is None for x in vals) \
+                        and not any(n.id in self.sorts for n in names):
+                    bound |= {n.id for n in names}
+                    continue
+            parts.append(self.xstmt(s, bound))
+        out = "XPass"
+        for p_ in reversed(parts):
+            out = p_ if out == "XPass" else "(x_seq %s\n      %s)" % (p_, out)
+        return out
+
+    def handler(self, h, bound):
+        """except (A, B) as e: <messages> raise C(msg)  -> ([A, B], C)"""
+        t = h.type
+        if isinstance(t, ast.Name):
+            names = [t.id]
+        elif isinstance(t, ast.Tuple) and t.elts and all(isinstance(x, ast.Name) for x in t.elts):
+            names = [x.id for x in t.elts]
+        else:
+            fail(h, "except clause must name exception classes")
+        b = set(bound)
+        if h.name:
+            b.add(h.name)
+        return names, message_then_raise(h.body, b, h.name)
+
+    def xtry(self, s, bound):
+        if s.finalbody or len(s.handlers) != 1:
+            fail(s, "try must have exactly one except clause and no finally")
+        names, raised = self.handler(s.handlers[0], bound)     # names bound INSIDE the try body are not definitely bound
+        body = self.xstmts(s.body, bound)
+        return "(x_try %s\n         [%s] (XRaise %s))" % (body, "; ".join(coq_str(n) for n in names), coq_str(raised))
+
+    def xstmt(self, s, bound):
+        if isinstance(s, ast.Try):
+            if s.orelse:
+                fail(s, "try/else in an effect-free block")
+            return self.xtry(s, bound)
+        if isinstance(s, ast.For) and not s.orelse:
+            it = s.iter
+            enum = isinstance(it, ast.Call) and isinstance(it.func, ast.Name) and it.func.id == "enumerate" and len(it.args) == 1 and not it.keywords
+            src = it.args[0] if enum else it
+            if not isinstance(src, ast.Name):
+                fail(s, "loop source")
+            if enum:
+                if not (isinstance(s.target, ast.Tuple) and len(s.target.elts) == 2 and all(isinstance(x, ast.Name) for x in s.target.elts)):
+                    fail(s, "enumerate loop target")
+                idx, var = s.target.elts[0].id, s.target.elts[1].id
+            else:
+                if not isinstance(s.target, ast.Name):
+                    fail(s, "loop target")
+                idx, var = None, s.target.id
+            so = self.sorts.get(src.id)
+            if so not in ("scheds", "sched") or var in self.sorts or (idx and idx in self.sorts):
+                fail(s, "loop over %s / rebinding of loop variables" % src.id)
+            self.sorts[var] = "sched" if so == "scheds" else "pyval"
+            body = self.xstmts(s.body, bound | {var} | ({idx} if idx else set()))
+            del self.sorts[var]
+            return "(%s %s (fun %s =>\n      %s))" % ("x_for" if so == "scheds" else "x_for_sched", src.id, var, body)
+        if isinstance(s, ast.Expr) and isinstance(s.value, ast.Call):
+            return self.xcall(s.value)
+        fail(s, "statement %s" % ast.unparse(s)[:60])
+
+    # ---- statements with effects on self -> coq : exp * xres
+    def sstmts(self, stmts):
+        E = self.self_exp
+        if not stmts:
+            return "(%s, XPass)" % E
+        s, rest = stmts[0], stmts[1:]
+        if is_doc(s):
+            return self.sstmts(rest)
+        if isinstance(s, ast.Expr) and isinstance(s.value, ast.Call):
+            c = s.value
+            f = c.func
+            if isinstance(f, ast.Attribute) and isinstance(f.value, ast.Name) and f.value.id == "self":
+                if f.attr == "_validate_type":
+                    # the abstraction: a list argument is a list of objects-of-the-right-class or None
+                    if len(c.args) != 2 or c.keywords or not (isinstance(c.args[0], ast.Name) and isinstance(c.args[1], ast.Name)) \
+                            or self.type_roles.get(c.args[0].id) != c.args[1].id or self.sorts.get(c.args[0].id) != "olist":
+                        fail(s, "_validate_type(%s) does not check the list against its own class" % ast.unparse(c)[:60])
+                    return self.sstmts(rest)
+                if f.attr == "reset_seed_data" and self.assigned_attrs is not None:
+                    return self.sstmts(rest)          # seed bookkeeping: no effect on lists / schedules
+                return "(s_then %s %s\n   %s)" % (self.xcall(c), E, self.sstmts(rest))
+        if isinstance(s, (ast.Assign, ast.AnnAssign)):
+            tg = s.targets[0] if isinstance(s, ast.Assign) and len(s.targets) == 1 else (s.target if isinstance(s, ast.AnnAssign) else None)
+            v = s.value
+            if tg is None or v is None:
+                fail(s, "assignment")
+            if isinstance(tg, ast.Name):
+                if tg.id == "objdict" and "objdict" not in self.sorts:
+                    mk = self.mkcfg_of_dict(v)
+                    self.sorts["objdict"] = "env"
+                    return "(let objdict := Some %s in\n   %s)" % (mk, self.sstmts(rest))
+                # X = [] if X is None else X
+                if self.sorts.get(tg.id) == "optlist" and isinstance(v, ast.IfExp) and isinstance(v.body, ast.List) and not v.body.elts \
+                        and isinstance(v.orelse, ast.Name) and v.orelse.id == tg.id and isinstance(v.test, ast.Compare) and len(v.test.ops) == 1 \
+                        and isinstance(v.test.ops[0], ast.Is) and isinstance(v.test.left, ast.Name) and v.test.left.id == tg.id \
+                        and isinstance(v.test.comparators[0], ast.Constant) and v.test.comparators[0].value is None:
+                    self.sorts[tg.id] = "olist"
+                    return "(let %s := or_nil %s in\n   %s)" % (tg.id, tg.id, self.sstmts(rest))
+            if isinstance(tg, ast.Attribute) and isinstance(tg.value, ast.Name) and tg.value.id == "self":
+                if tg.attr in KIND_OF_ATTR and isinstance(v, ast.Name) and self.sorts.get(v.id) == "olist" \
+                        and self.type_roles.get(v.id) == CLASS_OF_ATTR[tg.attr]:
+                    if self.assigned_attrs is not None:
+                        self.assigned_attrs.add(tg.attr)
+                    return "(let %s := set_objs %s %s %s in\n   %s)" % (E, E, KIND_OF_ATTR[tg.attr], v.id, self.sstmts(rest))
+                if tg.attr == "_schedules" and isinstance(v, ast.Name) and self.sorts.get(v.id) == "scheds":
+                    if self.assigned_attrs is not None:
+                        self.assigned_attrs.add(tg.attr)
+                    return "(let %s := set_scheds %s %s in\n   %s)" % (E, E, v.id, self.sstmts(rest))
+                if tg.attr == "_seed_data" and self.assigned_attrs is not None:
+                    return self.sstmts(rest)          # seed bookkeeping
+            fail(s, "assignment %s" % ast.unparse(s)[:60])
+        if isinstance(s, ast.Try):
+            if s.finalbody or len(s.handlers) != 1:
+                fail(s, "try must have exactly one except clause and no finally")
+            names, raised = self.handler(s.handlers[0], set(self.sorts))
+            body = self.xstmts(s.body, set(self.sorts))
+            t = "(x_try %s\n         [%s] (XRaise %s))" % (body, "; ".join(coq_str(n) for n in names), coq_str(raised))
+            return "(s_then %s %s\n   %s)" % (t, E, self.sstmts(list(s.orelse) + rest))
+        fail(s, "statement %s" % ast.unparse(s)[:60])
+
+
+def experiment_tree(repo):
+    return ast.parse(open(os.path.join(repo, "quara/qcircuit/experiment.py")).read())
+
+
+def translate_validate_schedules(repo):
+    f = find_method(experiment_tree(repo), "Experiment", "_validate_schedules")
+    a = f.args
+    if a.vararg or a.kwarg or a.kwonlyargs or a.posonlyargs or f.decorator_list or [x.arg for x in a.args] != ["self", "schedules", "objdict"] \
+            or len(a.defaults) != 1 or not (isinstance(a.defaults[0], ast.Constant) and a.defaults[0].value is None):
+        raise Unsupported("_validate_schedules: expected (self, schedules, objdict=None)")
+    p = Proc("self_")
+    p.sorts = {"schedules": "scheds", "objdict": "env"}
+    body = p.xstmts(list(f.body), {"self", "schedules", "objdict"})
+    return "Definition gen_validate_schedules (self_ : cfg) (objdict : option cfg) (schedules : list rsched) : xres :=\n   %s." % body
+
+
+def find_setter(tree, cls, prop):
+    for n in ast.walk(tree):
+        if isinstance(n, ast.ClassDef) and n.name == cls:
+            for m in n.body:
+                if isinstance(m, ast.FunctionDef) and m.name == prop and len(m.decorator_list) == 1:
+                    d = m.decorator_list[0]
+                    if isinstance(d, ast.Attribute) and d.attr == "setter" and isinstance(d.value, ast.Name) and d.value.id == prop:
+                        return m
+    raise Unsupported("setter %s.%s not found" % (cls, prop))
+
+
+def check_trivial_getter(tree, cls, prop, attr):
+    """@property def prop(self): return self.attr"""
+    for n in ast.walk(tree):
+        if isinstance(n, ast.ClassDef) and n.name == cls:
+            for m in n.body:
+                if isinstance(m, ast.FunctionDef) and m.name == prop and len(m.decorator_list) == 1 and isinstance(m.decorator_list[0], ast.Name) \
+                        and m.decorator_list[0].id == "property":
+                    body = [s for s in m.body if not is_doc(s)]
+                    if len(body) == 1 and isinstance(body[0], ast.Return) and isinstance(body[0].value, ast.Attribute) \
+                            and isinstance(body[0].value.value, ast.Name) and body[0].value.value.id == "self" and body[0].value.attr == attr:
+                        return
+                    raise Unsupported("property %s.%s is not `return self.%s`" % (cls, prop, attr))
+    raise Unsupported("property %s.%s not found" % (cls, prop))
+
+
+def translate_setters(repo):
+    tree = experiment_tree(repo)
+    out = []
+    for prop, attr in (("states", "_states"), ("povms", "_povms"), ("gates", "_gates"), ("mprocesses", "_mprocesses")):
+        f = find_setter(tree, "Experiment", prop)
+        plain_params_nodeco(f, ["self", "value"])
+        p = Proc("(e_cfg self_)", "self_")
+        p.sorts = {"value": "olist"}
+        p.type_roles = {"value": CLASS_OF_ATTR[attr]}
+        out.append("Definition gen_set_%s (self_ : exp) (value : list bool) : exp * xres :=\n   %s." % (prop, p.sstmts(list(f.body))))
+    f = find_setter(tree, "Experiment", "schedules")
+    plain_params_nodeco(f, ["self", "value"])
+    p = Proc("(e_cfg self_)", "self_")
+    p.sorts = {"value": "scheds"}
+    out.append("Definition gen_set_schedules (self_ : exp) (value : list rsched) : exp * xres :=\n   %s." % p.sstmts(list(f.body)))
+    return "\n".join(out)
+
+
+def plain_params_nodeco(fdef, names):
+    a = fdef.args
+    if a.vararg or a.kwarg or a.kwonlyargs or a.posonlyargs or a.defaults or [x.arg for x in a.args] != names:
+        raise Unsupported("%s: expected parameters %s without defaults" % (fdef.name, names))
+
+
+def translate_init(repo):
+    f = find_method(experiment_tree(repo), "Experiment", "__init__")
+    a = f.args
+    names = [x.arg for x in a.args]
+    if a.vararg or a.kwarg or a.kwonlyargs or a.posonlyargs or f.decorator_list or names != ["self", "schedules", "states", "povms", "gates", "mprocesses", "seed_data"] \
+            or len(a.defaults) != 5 or not all(isinstance(d, ast.Constant) and d.value is None for d in a.defaults):
+        raise Unsupported("Experiment.__init__: expected (self, schedules, states=None, povms=None, gates=None, mprocesses=None, seed_data=None)")
+    p = Proc("(e_cfg self_)", "self_")
+    p.sorts = {"schedules": "scheds", "states": "optlist", "povms": "optlist", "gates": "optlist", "mprocesses": "optlist"}
+    p.type_roles = {"states": "State", "povms": "Povm", "gates": "Gate", "mprocesses": "MProcess"}
+    p.assigned_attrs = set()
+    body = p.sstmts(list(f.body))
+    if not all(x in p.assigned_attrs for x in list(FIELD_OF_ATTR) + ["_schedules"]):
+        raise Unsupported("Experiment.__init__ does not assign all of _states, _povms, _gates, _mprocesses, _schedules")
+    return ("Definition gen_experiment_init (schedules : list rsched) (states povms gates mprocesses : option (list bool)) : exp * xres :=\n"
+            "   (let self_ := mkexp (mkcfg [] [] [] []) [] in\n   %s).") % body
+
+
+class IndexValidator(ItemValidator):
+    """Experiment._validate_schedule_index(self, schedule_index): the item vocabulary plus len(self.schedules)"""
+
+    def __init__(self, fdef, coq_name):
+        Validator.__init__(self, fdef, "schedule_index", coq_name)
+        self.sorts = {"schedule_index": "val0"}
+
+    def vterm(self, e):
+        if isinstance(e, ast.Call) and isinstance(e.func, ast.Name) and e.func.id == "len" and len(e.args) == 1 and not e.keywords \
+                and isinstance(e.args[0], ast.Attribute) and isinstance(e.args[0].value, ast.Name) and e.args[0].value.id == "self" \
+                and e.args[0].attr in ("schedules", "_schedules"):
+            return "(sl_len (e_scheds self_))", "int"
+        if isinstance(e, ast.Name) and e.id == "objdict":
+            fail(e, "objdict")
+        return ItemValidator.vterm(self, e)
+
+    def check_msg(self, e):
+        harmless(e, set(self.sorts) | self.msgvars)
+
+
+def translate_schedule_index(repo):
+    tree = experiment_tree(repo)
+    check_trivial_getter(tree, "Experiment", "schedules", "_schedules")
+    f = find_method(tree, "Experiment", "_validate_schedule_index")
+    plain_params(f, ["self", "schedule_index"])
+    v = IndexValidator(f, "gen_validate_schedule_index")
+    return "Definition gen_validate_schedule_index (self_ : exp) (schedule_index : pyval) : fres :=\n   %s." % v.body(list(f.body))
+
+
+def translate_calc_prob_dist(repo):
+    """skeleton of Experiment.calc_prob_dist: index validation, schedule lookup, the key_map, the loop that rejects None
+    placeholders and collects the referenced objects with appendleft, compose_qoperations(*targets).ps"""
+    tree = experiment_tree(repo)
+    f = find_method(tree, "Experiment", "calc_prob_dist")
+    plain_params(f, ["self", "schedule_index"])
+    b = [x for x in f.body if not is_doc(x)]
+    def bad(i, why):
+        raise Unsupported("calc_prob_dist, statement %d: %s" % (i, why))
+    if len(b) != 7:
+        bad(len(b), "expected 7 statements")
+    def self_attr(e, names):
+        return isinstance(e, ast.Attribute) and isinstance(e.value, ast.Name) and e.value.id == "self" and e.attr in names
+    def simple_assign(st, i):
+        if not (isinstance(st, ast.Assign) and len(st.targets) == 1 and isinstance(st.targets[0], ast.Name)):
+            bad(i, "expected NAME = ...")
+        return st.targets[0].id, st.value
+    # 0: self._validate_schedule_index(schedule_index)
+    c = b[0].value if isinstance(b[0], ast.Expr) else None
+    if not (isinstance(c, ast.Call) and self_attr(c.func, ["_validate_schedule_index"]) and not c.keywords and len(c.args) == 1
+            and isinstance(c.args[0], ast.Name) and c.args[0].id == "schedule_index"):
+        bad(0, "expected self._validate_schedule_index(schedule_index)")
+    # 1: schedule = self.schedules[schedule_index]
+    sched, v = simple_assign(b[1], 1)
+    if not (isinstance(v, ast.Subscript) and self_attr(v.value, ["schedules", "_schedules"]) and isinstance(v.slice, ast.Name) and v.slice.id == "schedule_index"):
+        bad(1, "expected self.schedules[schedule_index]")
+    # 2: key_map = dict(state=self._states, ...)
+    kmap, v = simple_assign(b[2], 2)
+    p = Proc("(e_cfg self_)", "self_")
+    mk = p.mkcfg_of_dict(v)
+    # 3: targets = collections.deque()
+    targets, v = simple_assign(b[3], 3)
+    if not (isinstance(v, ast.Call) and not v.args and not v.keywords and isinstance(v.func, ast.Attribute) and v.func.attr == "deque"
+            and isinstance(v.func.value, ast.Name) and v.func.value.id == "collections"):
+        bad(3, "expected collections.deque()")
+    if len({sched, kmap, targets, "self", "schedule_index"}) != 5:
+        bad(3, "variable names")
+    # 4: the loop
+    lp = b[4]
+    if not (isinstance(lp, ast.For) and not lp.orelse and isinstance(lp.target, ast.Name) and isinstance(lp.iter, ast.Name) and lp.iter.id == sched
+            and len(lp.body) == 4):
+        bad(4, "expected `for item in schedule:` with 4 statements")
+    item = lp.target.id
+    l0, l1, l2, l3 = lp.body
+    if not (isinstance(l0, ast.Assign) and len(l0.targets) == 1 and isinstance(l0.targets[0], ast.Tuple) and len(l0.targets[0].elts) == 2
+            and all(isinstance(x, ast.Name) for x in l0.targets[0].elts) and isinstance(l0.value, ast.Name) and l0.value.id == item):
+        bad(4, "expected `k, i = item`")
+    k, i = (x.id for x in l0.targets[0].elts)
+    tname, v = simple_assign(l1, 4)
+    if not (isinstance(v, ast.Subscript) and isinstance(v.value, ast.Subscript) and isinstance(v.value.value, ast.Name) and v.value.value.id == kmap
+            and isinstance(v.value.slice, ast.Name) and v.value.slice.id == k and isinstance(v.slice, ast.Name) and v.slice.id == i):
+        bad(4, "expected `target = key_map[k][i]`")
+    if len({sched, kmap, targets, item, k, i, tname, "self", "schedule_index"}) != 9:
+        bad(4, "variable names")
+    if not (isinstance(l2, ast.If) and not l2.orelse and isinstance(l2.test, ast.UnaryOp) and isinstance(l2.test.op, ast.Not)
+            and isinstance(l2.test.operand, ast.Name) and l2.test.operand.id == tname):
+        bad(4, "expected `if not target:`")
+    exc = message_then_raise(l2.body, {k, i, item})
+    c = l3.value if isinstance(l3, ast.Expr) else None
+    if not (isinstance(c, ast.Call) and isinstance(c.func, ast.Attribute) and c.func.attr == "appendleft" and isinstance(c.func.value, ast.Name)
+            and c.func.value.id == targets and not c.keywords and len(c.args) == 1 and isinstance(c.args[0], ast.Name) and c.args[0].id == tname):
+        bad(4, "expected `targets.appendleft(target)`")
+    # 5: prob_dist = op.compose_qoperations(*targets)
+    pd, v = simple_assign(b[5], 5)
+    if not (isinstance(v, ast.Call) and isinstance(v.func, ast.Attribute) and v.func.attr == "compose_qoperations" and not v.keywords and len(v.args) == 1
+            and isinstance(v.args[0], ast.Starred) and isinstance(v.args[0].value, ast.Name) and v.args[0].value.id == targets):
+        bad(5, "expected compose_qoperations(*targets)")
+    # 6: return prob_dist.ps
+    r = b[6]
+    if not (isinstance(r, ast.Return) and isinstance(r.value, ast.Attribute) and r.value.attr == "ps" and isinstance(r.value.value, ast.Name) and r.value.value.id == pd):
+        bad(6, "expected `return prob_dist.ps`")
+    return ("Definition gen_calc_prob_dist (self_ : exp) (schedule_index : pyval) : crun :=\n"
+            "   match x_of_fres (gen_validate_schedule_index self_ schedule_index) with\n"
+            "   | XPass => match sl_get (e_scheds self_) (pv_int (Some schedule_index)) with\n"
+            "              | Some (SSeq items) => collect_left %s items [] %s\n"
+            "              | _ => CRStuck\n"
+            "              end\n"
+            "   | XRaise e => CRRaise e\n"
+            "   | XStuck => CRStuck\n"
+            "   end.") % (mk, coq_str(exc))
+
+
+def translate_schedules_str(repo):
+    path = "quara/protocol/qtomography/standard/standard_qtomography.py"
+    tree = ast.parse(open(os.path.join(repo, path)).read())
+    f = find_method(tree, "StandardQTomography", "_validate_schedules_str")
+    plain_params(f, ["self", "schedules"])
+    b = [x for x in f.body if not is_doc(x)]
+    if len(b) != 2 or not (isinstance(b[0], ast.Assign) and len(b[0].targets) == 1 and isinstance(b[0].targets[0], ast.Name)
+                           and isinstance(b[0].value, ast.List) and all(isinstance(x, ast.Constant) and type(x.value) is str for x in b[0].value.elts)):
+        raise Unsupported("_validate_schedules_str: expected `NAME = [str constants]; if schedules not in NAME: raise ...`")
+    lst = b[0].targets[0].id
+    t = b[1]
+    if not (isinstance(t, ast.If) and not t.orelse and isinstance(t.test, ast.Compare) and len(t.test.ops) == 1 and isinstance(t.test.ops[0], ast.NotIn)
+            and isinstance(t.test.left, ast.Name) and t.test.left.id == "schedules" and isinstance(t.test.comparators[0], ast.Name)
+            and t.test.comparators[0].id == lst and lst not in ("schedules", "self")):
+        raise Unsupported("_validate_schedules_str: expected `if schedules not in %s:`" % lst)
+    exc = message_then_raise(t.body, {"schedules", lst})
+    return ("Definition gen_validate_schedules_str (schedules : string) : fres :=\n"
+            "   (f_if (c_not (c_bool (existsb (String.eqb schedules) [%s])))\n      (FRaise 0 %s)\n   FPass).") % (
+        "; ".join(coq_str(x.value) for x in b[0].value.elts), coq_str(exc))
+
+
+TOMO = [("quara/protocol/qtomography/standard/standard_qst.py", "StandardQst", "qst"),
+        ("quara/protocol/qtomography/standard/standard_povmt.py", "StandardPovmt", "povmt"),
+        ("quara/protocol/qtomography/standard/standard_qpt.py", "StandardQpt", "qpt"),
+        ("quara/protocol/qtomography/standard/standard_qmpt.py", "StandardQmpt", "qmpt")]
+SIZE_OF_PARAM = {"states": "ns", "povms": "np"}
+
+
+def sched_literal(e, loopvars):
+    """[("state", i), ("povm", 0)] -> Coq list of typed items"""
+    if not (isinstance(e, ast.List) and e.elts):
+        fail(e, "schedule literal")
+    items = []
+    for t in e.elts:
+        if not (isinstance(t, ast.Tuple) and len(t.elts) == 2 and isinstance(t.elts[0], ast.Constant) and t.elts[0].value in KIND_OF_KEY):
+            fail(t, "schedule item literal")
+        ix = t.elts[1]
+        if isinstance(ix, ast.Constant) and type(ix.value) is int:
+            z = "(%d)%%Z" % ix.value
+        elif isinstance(ix, ast.Name) and ix.id in loopvars:
+            z = ix.id
+        else:
+            fail(t, "index in a schedule literal")
+        items.append("(%s, %s)" % (KIND_OF_KEY[t.elts[0].value], z))
+    return "(sched_of [%s])" % "; ".join(items)
+
+
+def range_len(e, params):
+    """range(len(P)) with P a list parameter -> Coq list of Z"""
+    if isinstance(e, ast.Call) and isinstance(e.func, ast.Name) and e.func.id == "range" and len(e.args) == 1 and not e.keywords:
+        a = e.args[0]
+        if isinstance(a, ast.Call) and isinstance(a.func, ast.Name) and a.func.id == "len" and len(a.args) == 1 and not a.keywords \
+                and isinstance(a.args[0], ast.Name) and a.args[0].id in params:
+            return "(zseq %s)" % SIZE_OF_PARAM[a.args[0].id]
+    fail(e, "expected range(len(<states|povms>))")
+
+
+def translate_tomo_init(repo, path, cls, tag):
+    tree = ast.parse(open(os.path.join(repo, path)).read())
+    f = find_method(tree, cls, "__init__")
+    a = f.args
+    if a.vararg or a.kwarg or a.kwonlyargs or a.posonlyargs or f.decorator_list:
+        raise Unsupported("%s.__init__: parameter list" % cls)
+    pnames = [x.arg for x in a.args]
+    params = [x for x in pnames if x in SIZE_OF_PARAM]
+    if "schedules" not in pnames or pnames[0] != "self":
+        raise Unsupported("%s.__init__ has no schedules parameter" % cls)
+    d = a.defaults[len(a.defaults) - (len(pnames) - pnames.index("schedules"))] if len(pnames) - pnames.index("schedules") <= len(a.defaults) else None
+    if not (isinstance(d, ast.Constant) and d.value == "all"):
+        raise Unsupported("%s.__init__: default of schedules is not \"all\"" % cls)
+    b = [x for x in f.body if not is_doc(x)]
+    if len(b) < 4:
+        raise Unsupported("%s.__init__: body too short" % cls)
+    def bad(i, why):
+        raise Unsupported("%s.__init__, statement %d: %s" % (cls, i, why))
+    # 0: if type(schedules) == str: self._validate_schedules_str(schedules)
+    s0 = b[0]
+    ok = isinstance(s0, ast.If) and not s0.orelse and len(s0.body) == 1 and isinstance(s0.test, ast.Compare) and len(s0.test.ops) == 1 \
+        and isinstance(s0.test.ops[0], ast.Eq) and isinstance(s0.test.left, ast.Call) and isinstance(s0.test.left.func, ast.Name) \
+        and s0.test.left.func.id == "type" and len(s0.test.left.args) == 1 and isinstance(s0.test.left.args[0], ast.Name) \
+        and s0.test.left.args[0].id == "schedules" and isinstance(s0.test.comparators[0], ast.Name) and s0.test.comparators[0].id == "str"
+    c = s0.body[0].value if ok and isinstance(s0.body[0], ast.Expr) else None
+    if not (ok and isinstance(c, ast.Call) and isinstance(c.func, ast.Attribute) and c.func.attr == "_validate_schedules_str"
+            and isinstance(c.func.value, ast.Name) and c.func.value.id == "self" and not c.keywords and len(c.args) == 1
+            and isinstance(c.args[0], ast.Name) and c.args[0].id == "schedules"):
+        bad(0, "expected `if type(schedules) == str: self._validate_schedules_str(schedules)`")
+    # 1: if schedules == "all": schedules = <expansion>
+    s1 = b[1]
+    if not (isinstance(s1, ast.If) and not s1.orelse and isinstance(s1.test, ast.Compare) and len(s1.test.ops) == 1 and isinstance(s1.test.ops[0], ast.Eq)
+            and isinstance(s1.test.left, ast.Name) and s1.test.left.id == "schedules" and isinstance(s1.test.comparators[0], ast.Constant)
+            and type(s1.test.comparators[0].value) is str):
+        bad(1, "expected `if schedules == \"<str>\":`")
+    key = s1.test.comparators[0].value
+    eb = s1.body
+    def is_sched_assign(st):
+        return isinstance(st, ast.Assign) and len(st.targets) == 1 and isinstance(st.targets[0], ast.Name) and st.targets[0].id == "schedules"
+    if len(eb) == 1 and is_sched_assign(eb[0]) and isinstance(eb[0].value, ast.ListComp) and len(eb[0].value.generators) == 1:
+        g = eb[0].value.generators[0]
+        if g.ifs or g.is_async or not isinstance(g.target, ast.Name) or g.target.id in pnames:
+            bad(1, "comprehension")
+        expansion = "(map (fun %s => %s) %s)" % (g.target.id, sched_literal(eb[0].value.elt, {g.target.id}), range_len(g.iter, params))
+    elif len(eb) == 2 and is_sched_assign(eb[0]) and isinstance(eb[0].value, ast.List) and not eb[0].value.elts and isinstance(eb[1], ast.For) \
+            and not eb[1].orelse and len(eb[1].body) == 1:
+        lp = eb[1]
+        it = lp.iter
+        if not (isinstance(lp.target, ast.Tuple) and len(lp.target.elts) == 2 and all(isinstance(x, ast.Name) for x in lp.target.elts)
+                and isinstance(it, ast.Call) and isinstance(it.func, ast.Name) and it.func.id == "product" and len(it.args) == 2 and not it.keywords):
+            bad(1, "expected `for i, j in product(range(len(A)), range(len(B))):`")
+        i, j = lp.target.elts[0].id, lp.target.elts[1].id
+        if i == j or i in pnames or j in pnames:
+            bad(1, "loop variable names")
+        ap = lp.body[0].value if isinstance(lp.body[0], ast.Expr) else None
+        if not (isinstance(ap, ast.Call) and isinstance(ap.func, ast.Attribute) and ap.func.attr == "append" and isinstance(ap.func.value, ast.Name)
+                and ap.func.value.id == "schedules" and not ap.keywords and len(ap.args) == 1):
+            bad(1, "expected schedules.append([...])")
+        expansion = "(flat_map (fun %s => map (fun %s => %s) %s) %s)" % (i, j, sched_literal(ap.args[0], {i, j}), range_len(it.args[1], params), range_len(it.args[0], params))
+    else:
+        bad(1, "expansion of \"%s\"" % key)
+    # 2: experiment = Experiment(...)
+    s2 = b[2]
+    c = s2.value if isinstance(s2, ast.Assign) and len(s2.targets) == 1 and isinstance(s2.targets[0], ast.Name) else None
+    if not (isinstance(c, ast.Call) and isinstance(c.func, ast.Name) and c.func.id == "Experiment" and not c.args):
+        bad(2, "expected NAME = Experiment(<keyword arguments>)")
+    expname = s2.targets[0].id
+    kw = {k.arg: k.value for k in c.keywords}
+    if None in kw or set(kw) - {"states", "povms", "gates", "mprocesses", "schedules", "seed_data"} or "schedules" not in kw \
+            or not (isinstance(kw["schedules"], ast.Name) and kw["schedules"].id == "schedules"):
+        bad(2, "keyword arguments of Experiment(...)")
+    def list_arg(name):
+        if name not in kw:
+            return "None"
+        v = kw[name]
+        if isinstance(v, ast.Name) and v.id == name and name in params:
+            return "(Some (repeat true %s))" % SIZE_OF_PARAM[name]          # the caller's testers: real objects
+        if isinstance(v, ast.List) and all(isinstance(x, ast.Constant) and x.value is None for x in v.elts):
+            return "(Some [%s])" % "; ".join("false" for _ in v.elts)      # None placeholders
+        bad(2, "argument %s=%s" % (name, ast.unparse(v)))
+    exp_args = " ".join(list_arg(n) for n in ("states", "povms", "gates", "mprocesses"))
+    # 3: self._validate_schedules(schedules)
+    c = b[3].value if isinstance(b[3], ast.Expr) else None
+    if not (isinstance(c, ast.Call) and isinstance(c.func, ast.Attribute) and c.func.attr == "_validate_schedules" and isinstance(c.func.value, ast.Name)
+            and c.func.value.id == "self" and not c.keywords and len(c.args) == 1 and isinstance(c.args[0], ast.Name) and c.args[0].id == "schedules"):
+        bad(3, "expected self._validate_schedules(schedules)")
+    # the rest of the constructor (numerics) must not rebind schedules / the experiment
+    for st in b[4:]:
+        for n in ast.walk(st):
+            if isinstance(n, ast.Name) and isinstance(n.ctx, ast.Store) and n.id in ("schedules", expname):
+                fail(n, "%s.__init__ rebinds %s after the schedule prologue" % (cls, n.id))
+    return ("Definition gen_tomo_%s (ns np : nat) (schedules : sarg) : xres :=\n"
+            "   (x_seq (match schedules with AStr s_ => x_of_fres (gen_validate_schedules_str s_) | AList _ => XPass end)\n"
+            "   (let schedules := (match schedules with\n"
+            "                      | AStr s_ => if String.eqb s_ %s then AList %s else schedules\n"
+            "                      | AList _ => schedules end) in\n"
+            "    match schedules with\n"
+            "    | AList ss_ => x_seq (snd (gen_experiment_init ss_ %s))\n"
+            "                         (x_for ss_ (fun schedule => x_call_guard gen_guard_%s schedule))\n"
+            "    | AStr _ => XStuck\n"
+            "    end)).") % (tag, coq_str(key), expansion, exp_args, tag)
+
+
 def find_method(tree, cls, name):
     for n in ast.walk(tree):
         if isinstance(n, ast.ClassDef) and n.name == cls:
@@ -492,9 +1169,18 @@ def main():
     repo, outpath = sys.argv[1], sys.argv[2]
     try:
         parts = [HEADER, "(* from quara/qcircuit/experiment.py : Experiment._validate_schedule_item *)", translate_item(repo), "",
-                 "(* from quara/qcircuit/experiment.py : Experiment._validate_schedule_order *)", translate_order(repo), ""]
+                 "(* from quara/qcircuit/experiment.py : Experiment._validate_schedule_order *)", translate_order(repo), "",
+                 "(* from quara/qcircuit/experiment.py : Experiment._validate_schedules *)", translate_validate_schedules(repo), "",
+                 "(* from quara/qcircuit/experiment.py : Experiment.__init__ *)", translate_init(repo), "",
+                 "(* from quara/qcircuit/experiment.py : the setters of states / povms / gates / mprocesses / schedules *)", translate_setters(repo), "",
+                 "(* from quara/qcircuit/experiment.py : Experiment._validate_schedule_index, Experiment.calc_prob_dist *)",
+                 translate_schedule_index(repo), translate_calc_prob_dist(repo), ""]
         for path, cls, name in GUARDS:
             parts += ["(* from %s : %s._validate_schedules, body of the loop over the schedules *)" % (path, cls), translate_guard(repo, path, cls, name), ""]
+        parts += ["(* from quara/protocol/qtomography/standard/standard_qtomography.py : StandardQTomography._validate_schedules_str *)",
+                  translate_schedules_str(repo), ""]
+        for path, cls, tag in TOMO:
+            parts += ["(* from %s : %s.__init__, schedule prologue *)" % (path, cls), translate_tomo_init(repo, path, cls, tag), ""]
     except Unsupported as e:
         print("UNSUPPORTED: %s" % e)
         sys.exit(3)
@@ -502,7 +1188,7 @@ def main():
         print("UNSUPPORTED: cannot read / parse the source: %s" % e)
         sys.exit(3)
     open(outpath, "w").write("\n".join(parts))
-    print("ok: %d functions -> %s" % (2 + len(GUARDS), outpath))
+    print("ok: %d definitions -> %s" % (sum(1 for x in parts for l in x.splitlines() if l.startswith("Definition ")), outpath))
 
 
 if __name__ == "__main__":
